@@ -485,10 +485,11 @@ def build_value(td, vd, frozen=False):
         fl = 'frozenlist' if frozen else vd[0]
         return frozenlist(xs) if fl == 'frozenlist' else tuple(xs) if fl == 'tuple' else xs
     if k == 'set':
-        xs = [build_value(td[1], x, True) for x in vd[1]]
+        xs = _py_distinct(td[1], [(build_value(td[1], x, True), None) for x in vd[1]])
+        xs = [a for a, _ in xs]
         return frozenset(xs) if (frozen or vd[0] == 'frozenset') else set(xs)
     if k == 'dict':
-        d = {build_value(td[1], kk, True): build_value(td[2], vv, frozen) for kk, vv in vd[1]}
+        d = dict(_py_distinct(td[1], [(build_value(td[1], kk, True), build_value(td[2], vv, frozen)) for kk, vv in vd[1]]))
         return frozendict(d) if (frozen or vd[0] == 'frozendict') else d
     if k == 'tuple':
         return tuple(build_value(x, v, frozen) for x, v in zip(td[1], vd))
@@ -715,6 +716,21 @@ def qualifiers(td, vd, fails):
 # ---------------------------------------------------------------------------------------------------------------
 # equality, type checking
 # ---------------------------------------------------------------------------------------------------------------
+
+def _py_distinct(td, pairs):
+    """Python sets / dict keys cannot hold both -0.0 and 0.0 (they compare equal), also not when they sit inside struct/tuple
+    keys that merely have different Python container types before decoding: keep one element per value-with-zero-sign-folded."""
+    t = build_type(td)
+    seen = set()
+    out = []
+    for a, b in pairs:
+        key = repr(canon(t, a)).replace('-0x0.0p+0', '0x0.0p+0')
+        if key in seen:
+            continue
+        seen.add(key)
+        out.append((a, b))
+    return out
+
 
 def canon(t, v):
     """Canonical hashable form of Hail value v of type t (NaN ≡ NaN, -0.0 ≠ 0.0, sets/dicts unordered)."""
